@@ -35,6 +35,7 @@ var (
 	out  = flag.String("out", "trace.ndjson", "trace file")
 	seed = flag.Int64("seed", 1, "seed")
 	tier = flag.String("tier", "quick", "quick|thorough")
+	scen = flag.String("scen", "all", "all | refresh (one short UDP session whose first refresh burst overlaps application sends; used by C02 / C08)")
 )
 
 var t0 = time.Now()
@@ -466,6 +467,13 @@ func main() {
 		nudp, dur, ntcp = 4, 8500*time.Millisecond, 8
 	}
 	// UDP runs in parallel would share the logger; run them one after another
+	if *scen == "refresh" {
+		manyTemplates = true
+		evals += udpRun(w, r, pool, 1500*time.Millisecond, dist)
+		w.Close()
+		vt.PrintSummary(vt.Summary{Events: w.Events(), Traces: w.Traces(), Evaluations: evals, Distinct: len(dist)})
+		return
+	}
 	for i := 0; i < nudp; i++ {
 		evals += udpRun(w, r, pool, dur, dist)
 	}
